@@ -18,6 +18,7 @@ EXTENDS Integers, Sequences, FiniteSets, TLC
 CONSTANTS MaxN,     \* owners are 1..n for n \in 1..MaxN
           Levels,   \* subset of {"any", "one", "quorum", "all"}
           OOO,      \* values of PointsWriter.AllowOutOfOrderWrites to cover, subset of BOOLEAN
+          Coords,   \* coordinator positions to cover, subset of 0..MaxN (0 = the coordinator owns no copy)
           Dev       \* deviations of the code from the property that are modelled on request:
                     \*   "anyIgnoresQueuedHandoff" (F5): level any, hand-off accepted because the
                     \*   queue was non-empty, is reported to the collector as an error
@@ -65,7 +66,7 @@ TypeOK ==
   /\ ret \in {"none", "ok", "partial", "failed", "timeout"}
 
 Init ==
-  /\ n \in 1..MaxN /\ coord \in 0..n /\ level \in Levels /\ ooo \in OOO
+  /\ n \in 1..MaxN /\ coord \in (0..n) \cap Coords /\ level \in Levels /\ ooo \in OOO
   /\ qne \in [Own -> BOOLEAN]
   /\ \A o \in Own : (o > n \/ o = coord) => ~qne[o]      \* irrelevant entries: canonical value
   /\ pc = [o \in Own |-> IF o <= n THEN "start" ELSE "absent"]
